@@ -15,3 +15,11 @@ UNITS["chunk"] = {
     "overlays": _p("contracts/compress.vc", "contracts/chunk.vc"),
     "doc": "Platform dispatch, hash1/hash_many, ChunkState, Output against the chunk-level spec",
 }
+
+UNITS["tree_lemmas"] = {
+    "files": [],
+    "prelude": _p("prelude/core.rs"),
+    "spec": _p("spec/blake3_spec.rs", "spec/tree_spec.rs"),
+    "overlays": [],
+    "doc": "lemmas of the tree-level specification (no repo code): lp2, pairwise, split, covers",
+}
